@@ -133,6 +133,12 @@ def cases(tier, seed):
                     continue
                 for g in (range(84, 131) if thorough else range(92, 128, 1)):
                     yield {"shape": "mixed", "dir": direction, "k1": k1, "unit": unit, "k2": k2, "far": far, "g": g}
+    # (b3k) ... and with a constant on the label (label+n / label-n widens the distance estimates asymmetrically)
+    for direction in ("fwd", "bwd"):
+        for k in (4, 8, 16, -4, -8):
+            for k2, far in ((2, True), (3, True), (4, True), (3, False)):
+                for g in range(96, 132):
+                    yield {"shape": "mixed", "dir": direction, "k1": 0, "unit": "idx8", "k2": k2, "far": far, "g": g, "k": k}
     # (b4) the same with one or three statements of EVERY size-computation path in the span, the RMB filler centred on the 8/16-bit limit
     for direction in ("fwd", "bwd"):
         for unit, (text, usz) in UNITS.items():
@@ -192,9 +198,11 @@ def build(case):
         inner = [{"idx16": " LDA 300,X", "idx8": " LDA 100,X"}.get(case["unit"]) or UNITS[case["unit"]][0]] * case["k1"] + \
                 [" LDB {},PCR".format("FAR" if case["far"] else "NEAR")] * case["k2"] + [" RMB {}".format(case["g"])]
         tail = ["NEAR NOP", " RMB 300", "FAR NOP"]
+        k = case.get("k", 0)
+        tgt = "T1" if not k else "T1{:+d}".format(k)
         if case["dir"] == "fwd":
-            return ["S1 LDX T1,PCR"] + inner + ["T1 NOP"] + tail
-        return ["T1 NOP"] + inner + ["S1 LDX T1,PCR"] + tail
+            return ["S1 LDX {},PCR".format(tgt)] + inner + ["T1 NOP"] + tail
+        return ["T1 NOP"] + inner + ["S1 LDX {},PCR".format(tgt)] + tail
     if sh == "num":
         t = R.spell(case["v"], case["sp"]) + ",PCR"
         return [" {} {}".format(case["mnem"], "[" + t + "]" if case["ind"] else t), "ZZ9 NOP"]
@@ -220,7 +228,7 @@ def refs_of(case):
     if sh == "ref":
         return [("T1" if case["dir"] == "self" else "S1", case["mnem"], case["kind"], "T1", case["k"], case["ind"])]
     if sh == "mixed":
-        return [("S1", "LDX", "pcr", "T1", 0, False)]
+        return [("S1", "LDX", "pcr", "T1", case.get("k", 0), False)]
     if sh == "two":
         return [("LA", case["ma"], "pcr", case["ra"], 0, False), ("LB", case["mb"], case["bform"], case["rb"], 0, False)]
     if sh == "three":
@@ -238,7 +246,8 @@ def cell_of(case, mnem, kind, dclass):
     if sh == "num":
         return "{}|num{}|{}|{}".format(mnem, ".ind" if case["ind"] else "", c01.vclass(case["v"]), case["sp"])
     if sh == "mixed":
-        return "mixed|{}|{}x{}|{}x{}|{}".format(case["dir"], case["k1"], case["unit"], case["k2"], "far" if case["far"] else "near", dclass)
+        return "mixed|{}|{}x{}|{}x{}{}|{}".format(case["dir"], case["k1"], case["unit"], case["k2"], "far" if case["far"] else "near",
+                                                  "" if not case.get("k") else "|k={:+d}".format(case["k"]), dclass)
     if sh == "two":
         return "two|{}>{}|{}>{}|{}".format(case["ma"], case["ra"], case["mb"], case["rb"], dclass)
     return "three|{}|{}".format(">".join(case["r"]), dclass)
@@ -371,7 +380,7 @@ def _d(x):
 def describe(tier):
     return {
         "alphabet": "(a) 19 short + 19 long branches, forward/backward/self, RMB filler n; targets L, L+-k; with ORG at 6 origins; "
-                    "(b) every indexed-capable mnemonic with L,PCR and [L,PCR], same sweeps; (b2) distances 100..140 built from constant-offset indexed / extended instructions instead of RMB; (b3) spans mixing 0-4 constant-offset indexed statements, 0-3 other unsized PCR statements (near or far) and RMB filler; (b5) a branch / label,PCR statement directly followed by an ORG; (b4) the same with 1 or 3 statements of each of 33 size-computation paths (indexed forms, immediates, direct/extended, stack lists, FCB/FDB single and lists, FCC, RMB, long branches) in the span; (c) bare n,PCR over V16 x 3 spellings; "
+                    "(b) every indexed-capable mnemonic with L,PCR and [L,PCR], same sweeps; (b2) distances 100..140 built from constant-offset indexed / extended instructions instead of RMB; (b3) spans mixing 0-4 constant-offset indexed statements, 0-3 other unsized PCR statements (near or far) and RMB filler; (b3k) the same with label+-n (n = 4, 8, 16) as the target; (b5) a branch / label,PCR statement directly followed by an ORG; (b4) the same with 1 or 3 statements of each of 33 size-computation paths (indexed forms, immediates, direct/extended, stack lists, FCB/FDB single and lists, FCC, RMB, long branches) in the span; (c) bare n,PCR over V16 x 3 spellings; "
                     "(d) two PCR statements (and PCR + short branch) referencing any of 5 labels around them, both gaps over 112..132"
                     + ("; three PCR statements, 6 reference shapes, three gaps over 112..132" if tier == "thorough" else ""),
         "bound": "n in 0..140 for {} mnemonics, boundary band {} for the rest; +-10 around 32767 for {}".format(
